@@ -66,7 +66,11 @@ func installMonitors() {
 			c.Close()
 		}
 	}()
-	http.DefaultTransport = recordingTransport{}
+	// keep the concrete type the engine expects (*http.Transport) and record at the dial level
+	http.DefaultTransport = &http.Transport{DialContext: func(ctx context.Context, network, addr string) (net.Conn, error) {
+		atomic.AddInt64(&netAttempts, 1)
+		return nil, fmt.Errorf("dial recorded and refused by the harness")
+	}}
 	http.DefaultClient = &http.Client{Transport: recordingTransport{}}
 	net.DefaultResolver = &net.Resolver{PreferGo: true, Dial: func(ctx context.Context, network, address string) (net.Conn, error) {
 		atomic.AddInt64(&netAttempts, 1)
@@ -92,6 +96,13 @@ func sbExpr(b string) string {
 		return `concat("", ["a", "b"])`
 	}
 	panic("unknown builtin " + b)
+}
+
+func mockArg(b string) string {
+	if b == "http.send" {
+		return fmt.Sprintf(`{"method": "get", "url": "%s", "timeout": "300ms", "raise_error": false}`, probeURL)
+	}
+	return `"acv-probe.invalid"`
 }
 
 func sbStmt(b string) string {
@@ -122,6 +133,20 @@ func sbLines(b, syn string) []string {
 		return []string{"probe := json.marshal(" + sbExpr(b) + ")"}
 	case "negated":
 		return []string{"not " + sbStmt(b)}
+	case "withMock":
+		// the dangerous built-in is only named as the replacement of a harmless one
+		switch b {
+		case "http.send", "net.lookup_ip_addr":
+			return []string{fmt.Sprintf("probe := count(%s) with count as %s", mockArg(b), b)}
+		case "opa.runtime":
+			return []string{"probe := time.now_ns() with time.now_ns as opa.runtime"}
+		case "rego.parse_module":
+			return []string{`probe := startswith("x.rego", "package x") with startswith as rego.parse_module`}
+		case "count":
+			return []string{"probe := sum([1, 2]) with sum as count"}
+		case "concat":
+			return []string{`probe := trim("", ["a", "b"]) with trim as concat`}
+		}
 	}
 	panic("unknown syntax " + syn)
 }
@@ -203,6 +228,7 @@ func runSandbox(c sbCase) (o sbObs) {
 	before := atomic.LoadInt64(&netAttempts)
 	defer func() {
 		if r := recover(); r != nil {
+			// a panic while running an accepted policy (e.g. inside the engine's http.send) still means it ran
 			o.Panic = fmt.Sprint(r)
 		}
 		time.Sleep(5 * time.Millisecond) // let the listener goroutine count an accepted connection
@@ -215,7 +241,8 @@ func runSandbox(c sbCase) (o sbObs) {
 	if err != nil {
 		o.CompileErr = true
 		o.CompileMsg = err.Error()
-		o.UnsafeReason = strings.Contains(o.CompileMsg, "unsafe built-in function calls") && strings.Contains(o.CompileMsg, c.B)
+		o.UnsafeReason = (strings.Contains(o.CompileMsg, "unsafe built-in function calls") ||
+			strings.Contains(o.CompileMsg, "target must not be unsafe")) && strings.Contains(o.CompileMsg, c.B)
 		if len(o.CompileMsg) > 500 {
 			o.CompileMsg = o.CompileMsg[:500]
 		}
